@@ -204,7 +204,10 @@ ForCases(f, r, P(_)) ==
 (*      ones; the driver evaluates the leaves of a term with Go math       *)
 SGrid == -2..2
 SExp(t, v, f, bb, term) == [t |-> t, v |-> v, f |-> f, b |-> bb, term |-> term]
-SCase(op, p, x, y, e) == [op |-> op, p |-> p, x |-> x, y |-> y, sexp |-> e]
+SCase(op, p, x, y, e) == [op |-> op, p |-> p, x |-> x, y |-> y, alias |-> "-", sexp |-> e]
+\* the receiver IS an operand (in-place update): alias = "ra" (r = x), "rb" (r = y), "rab" (r = x = y); the demanded
+\* result is that of the operand values BEFORE the call
+SCaseA(op, al, x, y, e) == [op |-> op, p |-> 3, x |-> x, y |-> y, alias |-> al, sexp |-> e]
 X == <<"x">>
 Y == <<"y">>
 ScalarCases ==
@@ -214,6 +217,15 @@ ScalarCases ==
 \cup {SCase("Mul", p, x, y, SExp("v", x * y, 0, FALSE, <<>>)) : p \in P, x \in SGrid, y \in SGrid}
 \cup {SCase("Div", p, x, y, LET q == DDiv(<<x, 0>>, <<y, 0>>) IN SExp("v", q[1], q[3], FALSE, <<>>)) :
         p \in P, x \in {0, 2, -2, 4, -4}, y \in {0, 1, -1, 2, -2}}
+\cup {SCaseA("Add", al, x, IF al = "rab" THEN x ELSE y, SExp("v", x + (IF al = "rab" THEN x ELSE y), 0, FALSE, <<>>)) :
+        al \in {"ra", "rb", "rab"}, x \in SGrid, y \in SGrid}
+\cup {SCaseA("Sub", al, x, IF al = "rab" THEN x ELSE y, SExp("v", x - (IF al = "rab" THEN x ELSE y), 0, FALSE, <<>>)) :
+        al \in {"ra", "rb", "rab"}, x \in SGrid, y \in SGrid}
+\cup {SCaseA("Mul", al, x, IF al = "rab" THEN x ELSE y, SExp("v", x * (IF al = "rab" THEN x ELSE y), 0, FALSE, <<>>)) :
+        al \in {"ra", "rb", "rab"}, x \in SGrid, y \in SGrid}
+\cup {SCaseA("Div", al, x, IF al = "rab" THEN x ELSE y,
+              LET q == DDiv(<<x, 0>>, <<IF al = "rab" THEN x ELSE y, 0>>) IN SExp("v", q[1], q[3], FALSE, <<>>)) :
+        al \in {"ra", "rb", "rab"}, x \in {2, -2, 4, -4}, y \in {1, -1, 2, -2}}
 \cup {SCase("Neg", p, x, 0, SExp("v", -x, 0, FALSE, <<>>)) : p \in P, x \in SGrid}
 \cup {SCase("Abs", p, x, 0, SExp("v", SAbs(x), 0, FALSE, <<>>)) : p \in P, x \in SGrid}
 \cup {SCase("Min", p, x, y, SExp("v", SMin(x, y), 0, FALSE, <<>>)) : p \in P, x \in SGrid, y \in SGrid}
@@ -266,6 +278,11 @@ SpecialFamilies ==
 \cup {Fam(op, sh[1], -1, sh[2]) : op \in {"MdotV", "VdotM"}, sh \in {<<1, 2>>, <<2, 1>>, <<2, 2>>}}
 \cup {Fam("Outer", sh[1], sh[2], 0) : sh \in {<<1, 2>>, <<2, 1>>, <<2, 2>>}}
 \cup {Fam("MdotM", q[1][1], q[1][2], q[2]) : q \in {<<1, 2>>, <<2, 1>>, <<2, 2>>} \X {1, 2}}
+
+\* C03 (Mode = "c03"): the element-wise sums, products and quotients, where a zero (missing, explicitly stored or
+\* dense) is opposite an Inf/NaN; the other families are C09's (operands of one storage class)
+SpecialFams == IF Mode = "c09" THEN SpecialFamilies
+               ELSE {f \in SpecialFamilies : f.op \in {"VaddV", "VsubV", "VmulV", "VdivV", "MaddM", "MsubM", "MmulM", "MdivM"}}
 
 ForSpecial(f, r, P(_)) ==
   LET n    == Len2(f.rows, f.cols)
@@ -352,6 +369,9 @@ IntBoundCases ==
      {ICase(op, x, y, IExp("sym", IntRes(op, x, y), FALSE, 0)) : op \in {"Add", "Sub", "Mul", "Min", "Max"}, x \in ISyms, y \in ISyms}
 \cup {ICase(op, x, Sym("zero", 0), IExp("sym", IntRes(op, x, Sym("zero", 0)), FALSE, 0)) : op \in {"Neg", "Abs", "Set"}, x \in ISyms}
 \cup {ICase("Div", x, y, IExp("sym", IntRes("Div", x, y), FALSE, 0)) : x \in ISyms, y \in {Sym("zero", 1), Sym("zero", -1)}}
+\* powers beyond 2^53 (not exact in float64) and beyond MaxInt64: whatever the library does, generic = concrete
+\cup {ICase("Pow", Sym("zero", xy[1]), Sym("zero", xy[2]), IExp("any", Sym("zero", 0), FALSE, 0)) :
+        xy \in {<<3, 39>>, <<3, 40>>, <<3, 41>>, <<-3, 39>>, <<7, 22>>, <<2, 62>>, <<2, 63>>, <<2, 64>>, <<10, 18>>, <<10, 19>>, <<5, 3>>}}
 \cup {ICase("Sign", x, Sym("zero", 0), IExp("i", x, FALSE, SSign(SymVal(x, 128)))) : x \in ISyms}
 \cup {ICase("Equals", x, y, IExp("b", x, x = y, 0)) : x \in ISyms, y \in ISyms}
 \cup {ICase("Greater", x, y, IExp("b", x, SymVal(x, 128) > SymVal(y, 128), 0)) : x \in ISyms, y \in ISyms}
@@ -418,6 +438,88 @@ EqEpsCases ==
           xy \in {q \in Tuples(Len2(sh[1], sh[2]), EqVals) \X Tuples(Len2(sh[1], sh[2]), EqVals) : k \in OpKinds(MkV(q[1]))}}
        : sh \in shapes, k \in {"d", "s", "z"}}
 
+(***************************************************************************)
+(* QUOTIENTS THAT ARE NOT INTEGERS.  Every element-wise / broadcast        *)
+(* quotient is ONE correctly rounded IEEE division per element (truncating *)
+(* division for the integer types), so dense and sparse receivers must be  *)
+(* bit-identical.  The demanded element is the triple <<num, den, 6>>:     *)
+(* class 6 = "the quotient num/den, rounded once in the element type"      *)
+(* (5/3, 7/3, 3/10 ...).  ascale/bscale: operand a / the divisor are       *)
+(* multiplied by 2^scale (a subnormal divisor 2^-1074 under a numerator    *)
+(* 2^-1000: the exact quotient 2^74 * num/den must come out, not           *)
+(* a * (1/b) = Inf).  kind = "ratio".                                      *)
+(***************************************************************************)
+RNum == {0, 3, 5, 7}
+RDen == {3, 10}
+RatioOf(a, b) == IF a[1] = 0 THEN ZeroT ELSE <<a[1], b[1], 6>>
+RatioRec(op, r, a, b, sv, rows, cols, asc, bsc, cc) ==
+  [op |-> op, kind |-> "ratio", ascale |-> asc, bscale |-> bsc, r |-> r, a |-> a, b |-> b, s |-> <<sv, 0>>,
+   dims |-> <<rows, cols, 0>>, exp |-> Exp("c", cc, FALSE)]
+RatioFor(sh, sc, r) ==
+       {RatioRec(IF sh[2] < 0 THEN "VdivS" ELSE "MdivS", r, Opd(r, sh[1], sh[2], MkV(x)), NoOpd, sv, sh[1], sh[2], sc[1], sc[2],
+                 SeqOf(Len(x), LAMBDA i : RatioOf(<<x[i], 0>>, <<sv, 0>>))) :
+          x \in Tuples(Len2(sh[1], sh[2]), IF sc[1] = 0 THEN RNum ELSE {0, 1, 3}), sv \in (IF sc[1] = 0 THEN RDen ELSE {1})}
+       \cup
+       {RatioRec(IF sh[2] < 0 THEN "VdivV" ELSE "MdivM", r, Opd(r, sh[1], sh[2], MkV(xy[1])), Opd(r, sh[1], sh[2], MkV(xy[2])), 0,
+                 sh[1], sh[2], sc[1], sc[2], SeqOf(Len(xy[1]), LAMBDA i : RatioOf(<<xy[1][i], 0>>, <<xy[2][i], 0>>))) :
+          xy \in Tuples(Len2(sh[1], sh[2]), IF sc[1] = 0 THEN RNum ELSE {0, 1, 3}) \X
+                 Tuples(Len2(sh[1], sh[2]), IF sc[1] = 0 THEN RDen ELSE {1})}
+RatioCases ==
+  UNION {UNION {RatioFor(sh, sc, r) : r \in Receivers(sh[1], sh[2])} :
+           sh \in {<<1, -1>>, <<2, -1>>, <<1, 2>>}, sc \in {<<0, 0>>, <<-1000, -1074>>}}
+
+(***************************************************************************)
+(* VALUES THAT DO NOT FIT SINGLE PRECISION (2^24 + 1).  Every typed        *)
+(* accessor (Float64At, IntAt, ..., ConstAt().GetXxx) must deliver the     *)
+(* stored element; a product reading a sparse operand through one of them  *)
+(* must not round it.  Instantiated for the element types that hold the    *)
+(* values exactly (Int32/64, Int, Float64, Real64).  kind = "big".         *)
+(***************************************************************************)
+BigV == {0, 1, 16777217}
+BigRec(op, r, a, b, dims) == [Case(op, r, a, b, NoS, dims) EXCEPT !.s = NoS] @@ [kind |-> "big"]
+BigCases ==
+     {BigRec("Set", r, Opd(r, 2, -1, MkV(x)), NoOpd, <<2, -1, 0>>) : r \in Receivers(2, -1), x \in Tuples(2, BigV)}
+\cup {BigRec("MdotV", r, Opd(r, 2, 2, MkV(x)), Opd(r, 2, -1, MkV(y)), <<2, -1, 2>>) : r \in Receivers(2, -1), x \in Tuples(4, V2a), y \in Tuples(2, BigV)}
+\cup {BigRec("VdotM", r, Opd(r, 2, -1, MkV(x)), Opd(r, 2, 2, MkV(y)), <<2, -1, 2>>) : r \in Receivers(2, -1), x \in Tuples(2, BigV), y \in Tuples(4, V2a)}
+\cup {BigRec("VaddV", r, Opd(r, 2, -1, MkV(x)), Opd(r, 2, -1, MkV(y)), <<2, -1, 0>>) : r \in Receivers(2, -1), x \in Tuples(2, BigV), y \in Tuples(2, V2a)}
+
+(***************************************************************************)
+(* OPERANDS THAT ARE DIFFERENT VIEWS OF ONE STORAGE (dense matrices: the   *)
+(* concrete methods exist for them).  base = a matrix; v1, v2 = views      *)
+(* [t: transposed, r0, r1, c0, c1: slice bounds applied before T()].  The  *)
+(* content of a view is defined by the view arithmetic of the property     *)
+(* text: Slice(r0,r1,c0,c1).At(i,j) = At(r0+i, c0+j), T().At(i,j) =        *)
+(* At(j,i).  Equals: receiver = view v1, argument = view v2; MaddM/MmulM:  *)
+(* fresh receiver, operands v1, v2.  kind = "view".                        *)
+(***************************************************************************)
+View(t, r0, r1, c0, c1) == [t |-> t, r0 |-> r0, r1 |-> r1, c0 |-> c0, c1 |-> c1]
+VRows(v) == IF v.t THEN v.c1 - v.c0 ELSE v.r1 - v.r0
+VCols(v) == IF v.t THEN v.r1 - v.r0 ELSE v.c1 - v.c0
+ViewContent(base, bcols, v) ==
+  SeqOf(VRows(v) * VCols(v), LAMBDA x :
+     LET i == RowOf(x, VCols(v)) - 1
+         j == ColOf(x, VCols(v)) - 1
+     IN IF v.t THEN At(base, bcols, v.r0 + j + 1, v.c0 + i + 1) ELSE At(base, bcols, v.r0 + i + 1, v.c0 + j + 1))
+ViewRec(op, r, brows, bcols, bc, v1, v2, cc) ==
+  [op |-> op, kind |-> "view", r |-> r, a |-> [rows |-> brows, cols |-> bcols, c |-> bc, reps |-> [k \in {"d"} |-> 1..Len(bc)]],
+   b |-> NoOpd, s |-> NoS, v1 |-> v1, v2 |-> v2, dims |-> <<VRows(v1), VCols(v1), 0>>, exp |-> cc]
+ViewPairs3 == {<<View(FALSE, 0, 2, 0, 2), View(FALSE, 1, 3, 1, 3)>>,      \* two shifted slices
+               <<View(FALSE, 0, 2, 1, 3), View(TRUE, 1, 3, 0, 2)>>,       \* a slice and the transposed mirror slice
+               <<View(FALSE, 0, 3, 0, 3), View(TRUE, 0, 3, 0, 3)>>}       \* m and m.T()
+ViewCases ==
+  LET B2 == {MkA(x) : x \in Tuples(4, V3)}
+      B3 == {MkA(x) : x \in Tuples(9, V2a)}
+      W2 == <<View(FALSE, 0, 2, 0, 2), View(TRUE, 0, 2, 0, 2)>>
+      EqRec(rows, cols, bc, vp) ==
+        ViewRec("Equals", Rep("d", VRows(vp[1]), VCols(vp[1]), <<>>, "-"), rows, cols, bc, vp[1], vp[2],
+                Exp("b", <<>>, SameValues(ViewContent(bc, cols, vp[1]), ViewContent(bc, cols, vp[2]))))
+      OpRec(op, rows, cols, bc, vp, r) ==
+        ViewRec(op, r, rows, cols, bc, vp[1], vp[2],
+                Exp("c", Result(op, ViewContent(bc, cols, vp[1]), ViewContent(bc, cols, vp[2]), NoS, <<VRows(vp[1]), VCols(vp[1]), 0>>), FALSE))
+  IN {EqRec(2, 2, bc, W2) : bc \in B2}
+     \cup {EqRec(3, 3, bc, vp) : bc \in B3, vp \in ViewPairs3}
+     \cup {OpRec(op, 2, 2, bc, W2, r) : op \in {"MaddM", "MmulM"}, bc \in B2, r \in {q \in Receivers(2, 2) : q.k = "d"}}
+
 (* ---- simulation: random contents beyond the exhaustive bounds ---------- *)
 RV(n, D) == SeqOf(n, LAMBDA i : RandomElement(D))
 V5 == -2..2
@@ -465,7 +567,7 @@ Init == ph = "start" /\ fam = NoFam /\ rcv = None /\ c = NoCase /\ rx = <<>> /\ 
 
 PickFamily ==
   /\ ph = "start"
-  /\ fam' \in (IF Sim THEN SimFamilies ELSE IF Special THEN SpecialFamilies ELSE Families)
+  /\ fam' \in (IF Sim THEN SimFamilies ELSE IF Special THEN SpecialFams ELSE Families)
   /\ ph' = "family" /\ UNCHANGED <<rcv, c, rx, ry>>
 
 PickReceiver ==
@@ -497,7 +599,12 @@ EmitEqEps ==
   /\ \E k \in EqEpsCases : Put(k)
   /\ ph' = "case" /\ UNCHANGED <<fam, rcv, rx, ry>>
 
-Next == PickFamily \/ PickReceiver \/ EmitCase \/ EmitScalar \/ EmitCtor \/ EmitEqEps
+EmitExtra ==
+  /\ ph = "start" /\ ~Sim /\ ~Special /\ ~ZeroVar /\ Part \in {"all", "vec"}
+  /\ \E k \in RatioCases \cup BigCases \cup ViewCases : Put(k)
+  /\ ph' = "case" /\ UNCHANGED <<fam, rcv, rx, ry>>
+
+Next == PickFamily \/ PickReceiver \/ EmitCase \/ EmitScalar \/ EmitCtor \/ EmitEqEps \/ EmitExtra
 Spec == Init /\ [][Next]_vars
 
 (***************************************************************************)
@@ -509,10 +616,10 @@ Spec == Init /\ [][Next]_vars
 (***************************************************************************)
 IsContainerCase == ph = "case" /\ "exp" \in DOMAIN c
 StorageIndependence ==
-  (IsContainerCase /\ c.exp.t = "c" /\ c.op # "Ctor") =>
+  (IsContainerCase /\ c.exp.t = "c" /\ c.op # "Ctor" /\ "kind" \notin DOMAIN c) =>
      \A r2 \in Receivers(c.r.rows, c.r.cols) : Case(c.op, r2, c.a, c.b, c.s, c.dims).exp = c.exp
 \* every demanded value fits every element type (int8 included)
-Small == IsContainerCase => \A i \in 1..Len(c.exp.c) : c.exp.c[i][1] \in -100..100
+Small == (IsContainerCase /\ "kind" \notin DOMAIN c) => \A i \in 1..Len(c.exp.c) : c.exp.c[i][1] \in -100..100
 \* stored positions always cover the non-zero content
 StoredCoversContent ==
   IsContainerCase => \A o \in {c.a, c.b} : \A k \in DOMAIN o.reps : NonZero(o.c) \subseteq o.reps[k]
